@@ -132,6 +132,8 @@ func (f *Frame) execInstr(in ssa.Instruction, reach string, st *State) {
 		et := x.Type().Underlying().(*types.Pointer).Elem()
 		f.zeroInit(st, p, et)
 		f.define(x, p)
+		// the object was allocated as an et (used to delimit what a lock protects)
+		f.ctx.Fact(f.eng.objTypeFact(p, et))
 		if privateCell(x) {
 			// the variable's address is never stored or passed on: no pointer held in the heap, in a
 			// parameter or returned by a call refers to it
@@ -241,6 +243,7 @@ func (f *Frame) execInstr(in ssa.Instruction, reach string, st *State) {
 		f.oblig("makeslice", x.Pos(), f.srcTextOr(x.Pos(), "make"), reach, fmt.Sprintf("(and (<= 0 %s) (<= %s %s))", ln, ln, cp))
 		f.checkAllocLimit(x, ln, reach)
 		base := f.newObj(st, "mkslice")
+		f.ctx.Fact(fmt.Sprintf("(<= (objtype (pobj %s)) 0)", base))
 		et := x.Type().Underlying().(*types.Slice).Elem()
 		f.zeroInitElems(st, base, et)
 		s := f.define(x, fmt.Sprintf("(mkslice %s 0 %s %s)", base, ln, cp))
@@ -810,6 +813,7 @@ func (f *Frame) convert(x *ssa.Convert, reach string, st *State) {
 		f.define(x, fmt.Sprintf("(content %s %s)", f.heap(st, "H_uint8"), v))
 	case isString(from) && isByteSlice(to):
 		base := f.newObj(st, "bytes")
+		f.ctx.Fact(fmt.Sprintf("(<= (objtype (pobj %s)) 0)", base))
 		s := f.define(x, fmt.Sprintf("(mkslice %s 0 (slen %s) (slen %s))", base, v, v))
 		h := f.heap(st, "H_uint8")
 		f.ctx.Fact(fmt.Sprintf("(= (content %s %s) %s)", h, s, v))
